@@ -39,7 +39,8 @@ def res_desc(g, in_dim):
 
 
 def gen_fit_case(g):
-    topo = g.choice(["chain", "chain", "deep", "deep3", "parallel", "shortcut", "esn", "esn", "chain_fb", "deep_fb"])
+    topo = g.choice(["chain", "chain", "deep", "deep3", "parallel", "shortcut", "esn", "esn", "chain_fb", "deep_fb",
+                     "dag", "dag", "dag"])
     d_in = g.randint(1, 3)
     inp = {"kind": "input", "in_dim": d_in, "out_dim": d_in, "ext_dim": d_in}
     descs, edges, fb = [inp], [], {}
@@ -73,6 +74,21 @@ def gen_fit_case(g):
         for _ in range(2):
             descs.append(ridge_desc(g, r["out_dim"], g.randint(1, 2)))
             edges.append((1, len(descs) - 1))
+    elif topo == "dag":
+        # a random acyclic topology: every new node (reservoir or readout) listens to one to three earlier nodes, so
+        # readouts feed later reservoirs and readouts, and shortcuts skip one or several training stages
+        n_new = g.randint(3, 6)
+        for v in range(1, n_new + 1):
+            ps = sorted(g.sample(range(v), min(v, g.choice([1, 1, 2, 2, 3]))))
+            if g.chance(0.5) and (v - 1) not in ps:
+                ps = sorted(ps[:-1] + [v - 1])          # mostly a backbone, so that stages pile up
+            in_dim = sum(descs[p_]["out_dim"] for p_ in ps)
+            last_is_ridge = descs[-1]["kind"] == "ridge"
+            if (g.chance(0.45) and not (v == 1)) or (v == n_new and not any(d["kind"] == "ridge" for d in descs)):
+                descs.append(ridge_desc(g, in_dim, g.randint(1, 2)))
+            else:
+                descs.append(res_desc(g, in_dim))
+            edges += [(p_, v) for p_ in ps]
     else:   # shortcut: input -> readout and reservoir -> readout (a Concat is inserted)
         r = res_desc(g, d_in)
         descs += [r, ridge_desc(g, r["out_dim"] + d_in, g.randint(1, 2))]
@@ -201,6 +217,74 @@ def explicit_python(c, X, Y, names=None):
     return W
 
 
+
+K20, K21, K22, K23 = "K20", "K21", "K22", "K23"
+CUT_EDGE_FINDINGS = {
+    K23: "a readout that is an exit of the model and is trained in a stage which is not the last one gets no data "
+         "(_get_required_nodes links a stage only to the nodes of the NEXT stage): Model.fit raises AttributeError",
+    K21: "a fan-in node receives a predecessor that was run two or more training stages earlier: its states are not "
+         "forwarded (relations only link consecutive stages) and Model.fit raises / fits on the remaining inputs",
+    K22: "a fan-in node receives two or more predecessors run in an earlier stage: dist_states_to_next_subgraph keeps "
+         "one of them (single-child senders overwrite each other) and Model.fit raises",
+    K20: "a fan-in node receives one predecessor from the previous training stage and the others from its own stage: "
+         "DataDispatcher.load appends the forwarded states AFTER the others instead of at the predecessor's operand "
+         "position, so the readout behind it is fitted on permuted features and the fitted model predicts with the "
+         "features in the other order",
+}
+
+
+def cut_edge_signature(ctx, c, parents):
+    """Which of the recorded defects of the staged fit's data routing this topology runs into, according to the staging
+    MODEL (driver kind stages, lean/RpyModel/Stages.lean): returns a finding id or None. `parents` are the user-level
+    predecessors in operand order."""
+    descs = c["descs"]
+    n = len(descs)
+    offline = [i for i, d in enumerate(descs) if d["kind"] == "ridge"]
+    has_child = {a for a, _ in c["edges"]}
+    exits = [v for v in range(n) if v not in has_child]
+    mo = ctx.model.one({"kind": "stages", "regime": "E", "nodes": list(range(n)), "parents": parents, "exits": exits,
+                        "offline": offline})
+    if mo[0] != "ok":
+        raise common.FrameworkError("model driver error (stages): " + str(mo[1]))
+    stages = mo[1]["stages"]
+    tr, run = {}, {}
+    for i, st in enumerate(stages):
+        for v in st:
+            if v in offline and v not in tr:
+                tr[v] = i
+            elif v not in run:
+                run[v] = i
+    last = len(stages) - 1
+    first = lambda v: tr[v] if v in tr else run.get(v, last + 1)   # noqa: E731
+    if any(v in exits and tr[v] < last for v in offline):
+        return K23
+    sig = None
+    for v in range(n):
+        ps = parents[v]
+        if len(ps) < 2:
+            continue
+        sv = first(v)
+        ext = [p_ for p_ in ps if run.get(p_, sv) < sv]
+        if any(run[p_] < sv - 1 for p_ in ext):
+            return K21
+        if len(ext) >= 2:
+            sig = sig or K22
+        elif len(ext) == 1 and ps[-1] != ext[0]:
+            sig = sig or K20
+    return sig
+
+
+def report_fit_failure(ctx, c, parents, what, **kw):
+    """a fit that crashed or disagrees with the explicit procedure: a recorded finding when the staging model says the
+    topology runs into one of the routing defects, a violation otherwise"""
+    sig = cut_edge_signature(ctx, c, parents) if c["topo"] == "dag" else None
+    if sig is not None and sig in common.open_findings("C06"):
+        ctx.known(sig, CUT_EDGE_FINDINGS[sig])
+        ctx.stat(f"dag fit attributed to {sig}")
+    else:
+        ctx.violation(what, c, **kw)
+
+
 def check_fit(ctx, c):
     ob = "fit/" + c["topo"]
     descs = c["descs"]
@@ -213,6 +297,8 @@ def check_fit(ctx, c):
         ctx.violation(f"building the model raised {type(e).__name__}: {e}", c, obligation=ob)
         return
     Xarg = pack(X, c["container"])
+    names0 = built[1].names if built[0] == "model" else None
+    parents0 = order_parents([tuple(e) for e in c["edges"]], len(descs), names0)
     try:
         if built[0] == "esn":
             _, esn, res, ro = built
@@ -286,7 +372,7 @@ def check_fit(ctx, c):
             b.model.fit(Xarg, Yarg, warmup=c["warmup"], **kw)
             readouts = {i: b.nodes[i] for i in ridge_idx}
     except Exception as e:  # noqa
-        ctx.violation(f"fit raised {type(e).__name__}: {e} on a valid dataset", c, obligation=ob)
+        report_fit_failure(ctx, c, parents0, f"fit raised {type(e).__name__}: {e} on a valid dataset", obligation=ob)
         return
     impl_W = {}
     for i, ro in readouts.items():
@@ -335,9 +421,10 @@ def check_fit(ctx, c):
                 if abs(Fraction(float(got[a][b_])) - ex[a][b_]) > Fraction(1, 10 ** 9) * scale:
                     bad_m = (a, b_, float(ex[a][b_]), float(got[a][b_]))
         if bad_py:
-            ctx.violation(f"fit ({c['topo']}): readout {i} does not get the parameters of the explicit node-by-node procedure "
-                          "(run the upstream nodes over the data, fit on their outputs with the same targets and warm-up, feed predictions on)",
-                          c, expected=py.tolist(), observed=got.tolist(), obligation=ob)
+            report_fit_failure(ctx, c, parents0,
+                               f"fit ({c['topo']}): readout {i} does not get the parameters of the explicit node-by-node procedure "
+                               "(run the upstream nodes over the data, fit on their outputs with the same targets and warm-up, feed predictions on)",
+                               expected=py.tolist(), observed=got.tolist(), obligation=ob)
             return
         if bad_m is not None:
             ctx.violation(f"fit ({c['topo']}): readout {i} entry {bad_m[:2]} = {bad_m[3]!r} differs from the exact explicit procedure "
